@@ -80,6 +80,9 @@ def history(kind, junk, ops, w, rng):
         def tup():
             return ("cat", list(junk) + [rng.choice(POOL[:-1]) for _ in ops])
         return ("cat", [("alt", [tup(), ("cat", junk + ops), tup(), ("cat", junk + ops)]), word])
+    if kind == "repeat":
+        # the same operand tuple three times in a row: the word has to treat the second and third exactly like the first
+        return ("cat", [("alt", [("cat", junk + ops)] * 3), word])
     raise ValueError(kind)
 
 
@@ -96,7 +99,7 @@ def job(payload):
         if any(o[0] == "block" for o in ops):
             hk = ["direct", "detour"]
         elif ops:
-            hk += ["alias", "stream", "positioned"]       # judged by O1 only: their results legitimately differ from the plain histories
+            hk += ["alias", "stream", "positioned", "repeat"]       # judged by O1 only: their results legitimately differ from the plain histories
         out["n"] += 1
         out["depths"][str(len(junk) + len(ops))] = out["depths"].get(str(len(junk) + len(ops)), 0) + 1
         try:
@@ -121,7 +124,7 @@ def job(payload):
                 # the order of two DIFFERENT closure values is unspecified (the hidden closure type is outside the ordering laws,
                 # and distinct blocks are ordered by where their code lives): no history comparison for order words on them
                 unordered_closures = sum(1 for o in ops if o[0] == "block") >= 2 and isinstance(w, str) and w.lstrip("?!") in ("lt", "gt", "le", "ge")
-                if kind not in ("alias", "stream", "positioned") and not unordered_closures:
+                if kind not in ("alias", "stream", "positioned", "repeat") and not unordered_closures:
                     # history independence: the top |ops|+produced slots must agree (junk differs for scope/let: same junk list)
                     sig = (r["st"], sorted(zcheck.exact_key(s) for s in zcheck.eng_results(r)) if r["st"] == "done" else None, bool(r["stderr"]))
                     if first is None:
@@ -226,6 +229,24 @@ def run(chk):
         b = related(mk, a) if rng.random() < 0.7 else mk()
         w = rng.choice(["?find", "!find", "?starts", "!starts", "?ends", "!ends", "add", "?eq", "?lt"])
         cases.append((w, (a, b), rng.choice([2, 2, 3, 5])))
+    # needles whose beginning repeats (x x y, a b a c), in haystacks where the only occurrence starts inside a failed partial match
+    for _ in range(300 if quick else 6000):
+        strings = rng.random() < 0.5
+        x, y, z = rng.sample([1, 2, 3] if not strings else [97, 98, 0], 3)
+        needle = rng.choice([[x, x, y], [x, y, x, z], [x, x, x, y], [x, y, x, y, z], [x, x, y, x, x, z]])
+        k = rng.randint(1, len(needle) - 1)
+        hay = [rng.choice([x, y, z]) for _ in range(rng.randint(0, 3))] + needle[:k] + needle + [rng.choice([x, y, z]) for _ in range(rng.randint(0, 2))]
+        if rng.random() < 0.2:
+            hay = hay[:-1 - rng.randint(0, 1)]       # occurrence cut short: the answer is mostly "no"
+        a, b = (S(bytes(hay)), S(bytes(needle))) if strings else (seq(*[I(v) for v in hay]), seq(*[I(v) for v in needle]))
+        cases.append((rng.choice(["?find", "!find", "?find", "?starts", "?ends"]), (a, b), rng.choice([2, 3, 5])))
+    # regular expressions: patterns that compile and patterns that cannot, on matching and non-matching strings (the histories apply the
+    # same pattern to several stacks in a row, and other patterns before and after)
+    from vf.zmodel import BAD_ERE
+    for w in ("?match", "!match"):
+        for hay in (b"abc", b"a(", b"", b"xyz"):
+            for pat in sorted(BAD_ERE) + [b"a", b"a.*c", b"", b"z", b"bc"]:
+                cases.append((w, (S(hay), S(pat)), rng.choice([2, 3, 5])))
     # back-tick brackets (the only users of stack::drop)
     for depth in range(0, 7):
         for k in range(1, depth + 3):
